@@ -103,7 +103,17 @@ impl FilterBodyAction {
                 log::error!("error while filtering: {:?}", err);
                 self.in_error = true;
 
-                data
+                // Give back what was held back from the previous chunks (the last stage holds the
+                // oldest bytes), then this chunk unmodified
+                let mut passthrough = Vec::new();
+
+                for item in self.chain.iter_mut().rev() {
+                    passthrough.extend(item.held_back());
+                }
+
+                passthrough.extend(data);
+
+                passthrough
             }
         }
     }
@@ -131,7 +141,14 @@ impl FilterBodyAction {
                 log::error!("error while ending filtering: {}", err);
                 self.in_error = true;
 
-                Vec::new()
+                // Nothing more will be filtered, give back what was held back
+                let mut passthrough = Vec::new();
+
+                for item in self.chain.iter_mut().rev() {
+                    passthrough.extend(item.held_back());
+                }
+
+                passthrough
             }
         }
     }
@@ -199,6 +216,14 @@ impl FilterBodyActionItem {
             #[cfg(feature = "compress")]
             FilterBodyActionItem::Encode(encode_body_filter) => encode_body_filter.filter(data)?,
         })
+    }
+
+    /// Bytes consumed from the previous chunks and not emitted yet
+    fn held_back(&mut self) -> Vec<u8> {
+        match self {
+            FilterBodyActionItem::Html(html_body_filter) => html_body_filter.end(),
+            _ => Vec::new(),
+        }
     }
 
     pub fn end(&mut self) -> Result<Vec<u8>> {
